@@ -5,10 +5,10 @@
 (* CLI) on a scenario exported from PretextView.tla.  The clauses of RemapProps.tla are evaluated   *)
 (* on the recorded real outputs; Props selects which properties' clauses are evaluated.             *)
 (***************************************************************************************************)
-EXTENDS Reports, RemapNaming, Json, IOUtils, TLCExt
+EXTENDS Reports, RemapNaming, OutputFiles, Json, IOUtils, TLCExt
 CONSTANT Props
 Traces == JsonDeserialize(IOEnv.TRACE_FILE)
-ASSUME TLCSet(1, 0) /\ TLCSet(2, 0) /\ TLCSet(3, 0) /\ TLCSet(4, 0) /\ TLCSet(5, 0) /\ TLCSet(6, 0) /\ TLCSet(7, 0) /\ TLCSet(8, 0) /\ TLCSet(9, 0)
+ASSUME TLCSet(1, 0) /\ TLCSet(2, 0) /\ TLCSet(3, 0) /\ TLCSet(4, 0) /\ TLCSet(5, 0) /\ TLCSet(6, 0) /\ TLCSet(7, 0) /\ TLCSet(8, 0) /\ TLCSet(9, 0) /\ TLCSet(10, 0)
 VARIABLE tn
 Say(T, clause, detail) == PrintT(<<"V", T.tid, clause, detail>>)
 HasRev(T) == \E c \in Range(InContigs(T)) : c.st = -1
@@ -101,6 +101,11 @@ JPas(T) == ("MODEL" \in Props /\ Ok(T) /\ "pas" \in DOMAIN T /\ ("route" \notin 
   /\ Count(9, Len(T.pas))
   /\ (PasMatches(T) \/ PrintT(<<"M", T.tid, "per_assembly_stats", T.cls>>))
   /\ (PasBreaksAddUp(T) \/ PrintT(<<"M", T.tid, "per_assembly_breaks_add_up", T.cls>>))
+\* M-clause "cli_file_set": the files the command line tool wrote are the ones OutputFiles.tla names for the assemblies the library returns
+\* for the same scenario (T.lib_asms), nothing more and nothing less
+JFiles(T) == ("MODEL" \in Props /\ Ok(T) /\ "lib_asms" \in DOMAIN T) =>
+  /\ Count(10, Len(T.files))
+  /\ ({T.files[q] : q \in 1..Len(T.files)} = ExpectedFiles(T.lib_asms, "x", "1", "agp") \/ PrintT(<<"M", T.tid, "cli_file_set", T.cls>>))
 \* through the command line tool: the haplotig-removal count of the info yaml equals the number of haplotig scaffolds written
 J11cli(T) == ("C11" \in Props /\ Ok(T) /\ T.style = "cli") =>
   (T.yaml_haplotig_removals = T.haplotig_scaffolds_written \/ Say(T, "C11.haplotig_removals", T.cls))
@@ -115,11 +120,11 @@ J11(T) == ("C11" \in Props /\ Ok(T) /\ T.style # "cli") =>
   /\ (T.stats.cuts = CutsDef(T) \/ Say(T, "C11.cuts", Cls(T)))
   /\ (T.stats.breaks = BreaksDef(T) \/ Say(T, "C11.breaks", Cls(T)))
   /\ (T.stats.joins = JoinsDef(T) \/ Say(T, "C11.joins", Cls(T)))
-Judge(T) == Count(1, 1) /\ J01(T) /\ J02(T) /\ J07(T) /\ J08(T) /\ J08p(T) /\ J09(T) /\ J10(T) /\ J10u(T) /\ J11(T) /\ J11cli(T) /\ J11route(T) /\ JModel(T) /\ JNaming(T) /\ JReports(T) /\ JPas(T)
+Judge(T) == Count(1, 1) /\ J01(T) /\ J02(T) /\ J07(T) /\ J08(T) /\ J08p(T) /\ J09(T) /\ J10(T) /\ J10u(T) /\ J11(T) /\ J11cli(T) /\ J11route(T) /\ JModel(T) /\ JNaming(T) /\ JReports(T) /\ JPas(T) /\ JFiles(T)
 TInit == tn = 0
 TNext == tn < Len(Traces) /\ tn' = tn + 1 /\ Judge(Traces[tn + 1]) = TRUE
 TraceSpec == TInit /\ [][TNext]_tn
 Post == /\ PrintT(<<"JUDGED", TLCGet(1)>>) /\ PrintT(<<"N", "completed_runs", TLCGet(2)>>) /\ PrintT(<<"N", "pieces_with_core", TLCGet(3)>>)
         /\ PrintT(<<"N", "deep_cuts", TLCGet(4)>>) /\ PrintT(<<"N", "output_junctions", TLCGet(5)>>) /\ PrintT(<<"N", "null_maps", TLCGet(6)>>)
-        /\ PrintT(<<"N", "report_rows", TLCGet(7)>>) /\ PrintT(<<"N", "sanity_warnings", TLCGet(8)>>) /\ PrintT(<<"N", "per_assembly_stat_entries", TLCGet(9)>>)
+        /\ PrintT(<<"N", "report_rows", TLCGet(7)>>) /\ PrintT(<<"N", "sanity_warnings", TLCGet(8)>>) /\ PrintT(<<"N", "per_assembly_stat_entries", TLCGet(9)>>) /\ PrintT(<<"N", "cli_files_written", TLCGet(10)>>)
 ====
